@@ -632,3 +632,33 @@ def run(rep: Report, prog: Program, tier: str) -> None:
     # ---------------------------------------------------------------- C03-SLOTS (shared with C14)
     from .common import description_slots_rule
     description_slots_rule(rep, prog, PROP, "C03-SLOTS")
+
+    # ---------------------------------------------------------------- C03-MIDS: every mid handed out is remembered, so a later offer never reuses it
+    rep.rule("C03-MIDS", "mids assigned in setLocal/RemoteDescription are recorded in the set that createOffer allocates new mids from", min_instances=3)
+    n_assign = 0
+    for fi in (set_local, set_remote):
+        for loop in [n for n in walk_no_nested(fi.node) if isinstance(n, ast.For) and "description.media" in unparse(n.iter)]:
+            assigns = [x for b in loop.body for x in ast.walk(b)
+                       if (isinstance(x, ast.Call) and unparse(x.func).endswith("._set_mid")) or
+                       (isinstance(x, ast.Assign) and unparse(x.targets[0]).endswith(".mid"))]
+            if not assigns:
+                continue
+            n_assign += 1
+            # the mid expression: `mid` (bound from media.rtp.muxId in this loop) or media.rtp.muxId itself
+            recorded = [x for b in loop.body for x in ast.walk(b) if isinstance(x, ast.Call) and unparse(x.func) == "self.__seenMids.add"]
+            aliases = {"media.rtp.muxId"} | {unparse(s_.targets[0]) for s_ in loop.body if isinstance(s_, ast.Assign) and unparse(s_.value).endswith(".rtp.muxId")}
+            top_level = [x for x in recorded if any(isinstance(b, ast.Expr) and b.value is x for b in loop.body)]
+            ok = any(unparse(x.args[0]) in aliases for x in top_level)
+            if ok:
+                rep.ok("C03-MIDS", f"{fi.name}: mids of the description's sections are added to __seenMids", sample=unparse(top_level[0]))
+            else:
+                rep.fail(mk_finding(prog, PROP, "C03-MIDS", fi, loop, f"{fi.name} assigns the sections' mids to transceivers / the SCTP transport without recording them in __seenMids on every "
+                                    f"iteration: a follow-up offer that adds media can hand out a mid that is already in use", construct="mid not recorded in __seenMids"))
+    alloc = [n for n in walk_no_nested(create_offer.node) if isinstance(n, ast.Assign) and unparse(n.value) == "self.__seenMids.copy()"]
+    uses = [n for n in ast.walk(create_offer.node) if isinstance(n, ast.Call) and unparse(n.func) == "allocate_mid" and n.args and alloc and unparse(n.args[0]) == unparse(alloc[0].targets[0])]
+    if alloc and len(uses) >= 2:
+        rep.ok("C03-MIDS", "createOffer allocates new mids from a copy of __seenMids", sample=f"{len(uses)} allocate_mid() call sites")
+    else:
+        rep.fail(mk_finding(prog, PROP, "C03-MIDS", create_offer, create_offer.node, "createOffer does not allocate the mids of new sections from the set of mids seen so far", construct="mid allocation"))
+    if n_assign < 2:
+        raise AnalysisError("mid assignment loops not found in setLocalDescription / setRemoteDescription")
